@@ -40,6 +40,11 @@ var c39Names = func() []string {
 
 type c39Model struct {
 	Att map[string]string
+	// Dup: names of the last step that were inserted although present. The statement asks for unique
+	// keys and agreement with a sorted map, in which inserting a present key replaces its value (here:
+	// by the same bytes); pdfcpu keeps the old entry and stores the new one under a derived key. Both
+	// are accepted (Reconcile); the structural invariants hold either way.
+	Dup []string
 }
 
 func (m *c39Model) Clone() Model {
@@ -68,12 +73,17 @@ func (m *c39Model) Apply(s Step) bool {
 		if len(a.List) == 0 {
 			return false
 		}
+		m.Dup = nil
 		for _, n := range a.List {
+			if _, ok := m.Att[n]; ok {
+				m.Dup = append(m.Dup, n)
+			}
 			h := sha256.Sum256(attContent(n))
 			m.Att[n] = hex.EncodeToString(h[:])
 		}
 		return true
 	case "att-remove":
+		m.Dup = nil
 		if len(a.List) == 0 {
 			if len(m.Att) == 0 {
 				return false
@@ -101,10 +111,16 @@ func (c39Store) ID() string { return "C39" }
 // Docs: no name tree; a prebuilt multi-level EmbeddedFiles tree; a document that also carries a
 // Dests name tree as a bystander.
 func (c39Store) Docs() []string {
-	return []string{"zineTest.pdf", "prebuilt:zineTest.pdf", "adobe_errata.pdf"} // quick uses the first two
+	// wide:MxLxN: generated three-level tree with M intermediate nodes of L leaves of N names each
+	return []string{"zineTest.pdf", "prebuilt:zineTest.pdf", "wide:2x3x1", "wide:3x4x2", "adobe_errata.pdf", "wide:2x5x3"} // quick uses the first four
+
 }
 
 func (s c39Store) Materialise(doc, path string) error {
+	if m, l, n, ok := wideShape(doc); ok {
+		b, _ := genWideTreeDoc(m, l, n)
+		return os.WriteFile(path, b, 0644)
+	}
 	pre := strings.HasPrefix(doc, "prebuilt:")
 	doc = strings.TrimPrefix(doc, "prebuilt:")
 	b, err := os.ReadFile(filepath.Join("/repo/pkg/testdata", doc))
@@ -181,8 +197,9 @@ func (c39Store) Valid(mm Model, s Step) bool {
 	json.Unmarshal(s.Args, &a)
 	switch s.Op {
 	case "att-add":
+		// a present name may be inserted again, but not together with faults and not a derived name
 		for _, n := range a.List {
-			if _, ok := m.Att[n]; ok {
+			if _, ok := m.Att[n]; ok && (s.Fault != nil || strings.Contains(n, "\x01")) {
 				return false
 			}
 		}
@@ -198,7 +215,41 @@ func (c39Store) Valid(mm Model, s Step) bool {
 	return true
 }
 
-func (s c39Store) NewModel(path string) (Model, error) { return s.observe(path) }
+// Reconcile: for each name inserted although present, a key derived from it (the name followed by
+// further bytes) that holds the same bytes may have appeared; the model adopts it. Nothing else.
+func (s c39Store) Reconcile(mm Model, path string) {
+	m := mm.(*c39Model)
+	if len(m.Dup) == 0 {
+		return
+	}
+	obs, err := s.observe(path)
+	if err != nil {
+		return
+	}
+	for _, n := range m.Dup {
+		for _, k := range sortedKeys(obs.Att) {
+			if _, known := m.Att[k]; !known && strings.HasPrefix(k, n) && obs.Att[k] == m.Att[n] {
+				m.Att[k] = obs.Att[k]
+				break
+			}
+		}
+	}
+	m.Dup = nil
+}
+
+func (s c39Store) NewModel(path string) (Model, error) {
+	// generated documents: the model is the generator's own description, not what pdfcpu reads
+	if b, err := os.ReadFile(path); err == nil {
+		for _, d := range s.Docs() {
+			if m, l, n, ok := wideShape(d); ok {
+				if gb, truth := genWideTreeDoc(m, l, n); bytes.Equal(gb, b) {
+					return &c39Model{Att: truth}, nil
+				}
+			}
+		}
+	}
+	return s.observe(path)
+}
 func (s c39Store) Observe(path string) (string, error) {
 	m, err := s.observe(path)
 	if err != nil {
@@ -209,16 +260,47 @@ func (s c39Store) Observe(path string) (string, error) {
 
 func (c39Store) Gen(rng *rand.Rand, mm Model, aux string) Step {
 	m := mm.(*c39Model)
-	var free, present []string
+	var free []string
+	present := sortedKeys(m.Att) // incl. the names the starting document came with
 	for _, n := range c39Names {
-		if _, ok := m.Att[n]; ok {
-			present = append(present, n)
-		} else {
+		if _, ok := m.Att[n]; !ok {
 			free = append(free, n)
 		}
 	}
+	for k := range m.Att {
+		// names that sort between the keys of a generated wide tree
+		if strings.HasPrefix(k, "w") && strings.HasSuffix(k, ".dat") && len(k) == 8 {
+			var i int
+			fmt.Sscanf(k, "w%03d.dat", &i)
+			if nb := fmt.Sprintf("w%03d.dat", i+1); m.Att[nb] == "" {
+				free = append(free, nb)
+			}
+		}
+	}
+	sort.Strings(free)
 	for {
 		switch r := rng.IntN(10); {
+		case r == 0 && len(present) > 0 && rng.IntN(2) == 0:
+			// duplicate key: the largest, the smallest or any present name is inserted again
+			var cand []string
+			for _, k := range present {
+				if !strings.Contains(k, "\x01") {
+					cand = append(cand, k)
+				}
+			}
+			if len(cand) == 0 {
+				continue
+			}
+			k := cand[len(cand)-1]
+			switch rng.IntN(4) {
+			case 0:
+				k = cand[0]
+			case 1:
+				k = cand[rng.IntN(len(cand))]
+			}
+			st := step("att-add", c35Args{List: []string{k}})
+			st.NoFault = true
+			return st
 		case r < 5 && len(free) > 0:
 			// adds: random, or ascending / descending runs, or a neighbour of a present key
 			k := 1 + rng.IntN(3)
@@ -276,7 +358,13 @@ func (c39Store) Exec(s Step, path, aux string) error {
 	case "att-add":
 		var files []string
 		for _, n := range a.List {
-			files = append(files, filepath.Join(aux, n))
+			f := filepath.Join(aux, n)
+			if _, err := os.Stat(f); err != nil {
+				if err := os.WriteFile(f, attContent(n), 0644); err != nil {
+					return fmt.Errorf("harness: %w", err)
+				}
+			}
+			files = append(files, f)
 		}
 		return api.AddAttachmentsFile(path, "", files, false, dsConf())
 	case "att-remove":
@@ -491,7 +579,7 @@ func (c39Store) Structural(path string, mm Model) error {
 }
 
 func init() {
-	core.Register(histProp{id: "C39", store: c39Store{}, maxLen: 60, quickN: 16, quickDocs: 2, thoroughN: 300,
-		rule: "seeded histories of up to 60 attachment add/remove steps (1-3 names per step; random, ascending and descending runs, common-prefix, case-variant and non-ASCII names; removals from the left edge, right edge and random; removals of absent names; remove-all) through the in-place file API, starting from a document without a name tree, from a prebuilt 3-4 level EmbeddedFiles tree, and from a document that also has a Dests name tree. After every successful step the re-read file is walked raw: keys strictly ascending in byte order and unique, every non-root node's Limits equal to [min,max] of the keys below it, root without Limits, no node with both or neither of Kids/Names, no dangling value or kid reference, key set equal to the model's sorted map, bystander Dests tree unchanged; listing and extracted bytes equal the model. Half of the batches inject faults/crashes like C35. Distinct by (document, step sequence); non-trivial when a step succeeded.",
-		assumptions: []string{"keys are compared in byte order of the stored strings; only names whose stored form is their UTF-8 file name are used", "re-adding a present id is not generated (pdfcpu stores a second entry under a derived key; the statement does not say what should happen)"}})
+	core.Register(histProp{id: "C39", store: c39Store{}, maxLen: 60, quickN: 12, quickDocs: 4, thoroughN: 300,
+		rule: "seeded histories of up to 60 attachment add/remove steps (1-3 names per step; random, ascending and descending runs, common-prefix, case-variant and non-ASCII names; removals from the left edge, right edge and random; removals of absent names; remove-all; re-insertion of the largest, smallest or a random present key) through the in-place file API, starting from a document without a name tree, from a prebuilt 3-4 level EmbeddedFiles tree, from three-level trees with fan-out 3 to 5 and 1 to 3 names per leaf written by an independent generator (the shape another producer may write; their names are removed and names sorting between them are inserted), and from a document that also has a Dests name tree. After every successful step the re-read file is walked raw: keys strictly ascending in byte order and unique, every non-root node's Limits equal to [min,max] of the keys below it, root without Limits, no node with both or neither of Kids/Names, no dangling value or kid reference, key set equal to the model's sorted map, bystander Dests tree unchanged; listing and extracted bytes equal the model. Half of the batches inject faults/crashes like C35. Distinct by (document, step sequence); non-trivial when a step succeeded.",
+		assumptions: []string{"keys are compared in byte order of the stored strings; only names whose stored form is their UTF-8 file name are used", "inserting a present key: a sorted map replaces the value (here by the same bytes), pdfcpu keeps the entry and stores the new one under a derived key (name + suffix); both outcomes are accepted, everything else (uniqueness, order, limits, all other keys) is checked as usual; such steps carry no injected fault"}})
 }
